@@ -175,7 +175,7 @@ def parseUnary : Nat → List Tok → Option (Expr × List Tok)
     | .Pipe => do
       let (d, r) ← eatAmps 127 (ts.drop 1)
       let (id, r) ← eat .Identifier r
-      let (st, r) ← parseSteps fuel 127 r
+      let (st, r) ← parseSteps fuel 128 r
       let (_, r) ← eat .Pipe r
       some (.lengthOf d id.text st, r)
     | .Exclamation => do
@@ -202,7 +202,7 @@ def parsePrimary : Nat → List Tok → Option (Expr × List Tok)
     | .Ampersand => do
       let (d, r) ← eatAmps 126 ts
       let (id, r) ← eat .Identifier r
-      let (st, r) ← parseSteps fuel 127 r
+      let (st, r) ← parseSteps fuel 128 r
       if kindOf r = .Dots then do
         let (off, r) ← parseExpr fuel (r.drop 1)
         some (.bin .AdvancePointer (.deref (d + 1) id.text st) off, r)
@@ -216,7 +216,7 @@ def parsePrimary : Nat → List Tok → Option (Expr × List Tok)
         let (fs, r) ← parseFields fuel (ts.drop 1)
         some (.structural t.text fs, r)
       | _ => do
-        let (st, r) ← parseSteps fuel 127 ts
+        let (st, r) ← parseSteps fuel 128 ts
         some (.deref 0 t.text st, r)
     | .Builtin => do
       let (_, r) ← eat .ParenLeft ts
@@ -261,7 +261,7 @@ def parseFields : Nat → List Tok → Option (Fields × List Tok)
         let (_, r) ← eat .BraceRight r
         some (.cons id.text e .nil, r)
 
-/-- `parse_deref_steps_list`; `budget` = steps still allowed -/
+/-- `parse_deref_steps_list`; `budget` = iterations of its loop still allowed (`0..=MAX_REFERENCE_DEPTH`: 127 steps and the look at what follows them) -/
 def parseSteps : Nat → Nat → List Tok → Option (Steps × List Tok)
   | 0, _, _ => none
   | _, 0, _ => none
@@ -352,7 +352,7 @@ def parseStmt : Nat → List Tok → Option (Stmt × List Tok)
         let (_, r) ← eat .Semicolon r
         some (.mcall t.text false args, r)
       | _ => do
-        let (st, r) ← parseSteps fuel 127 ts
+        let (st, r) ← parseSteps fuel 128 ts
         parseAssignRest fuel 0 t.text st r
     | .Builtin => do
       let (_, r) ← eat .ParenLeft ts
@@ -362,7 +362,7 @@ def parseStmt : Nat → List Tok → Option (Stmt × List Tok)
     | .Ampersand => do
       let (d, r) ← eatAmps 126 ts
       let (id, r) ← eat .Identifier r
-      let (st, r) ← parseSteps fuel 127 r
+      let (st, r) ← parseSteps fuel 128 r
       parseAssignRest fuel (d + 1) id.text st r
     | _ => none
 
